@@ -175,6 +175,7 @@ type RecNode struct {
 	CloseOps  []string // op labels under which Close ran
 	cmu       sync.Mutex
 	reg       eventlogger.Node // what is handed to RegisterNode: the node itself or a wrapper around it
+	bypassed  int64            // Reopen calls that went to the wrapped node directly
 
 	// optional callbacks
 	OnProcess func(ctx context.Context, n *RecNode, e *eventlogger.Event, ent *Entry)
@@ -270,7 +271,7 @@ type wrapNoClose struct{ in *RecNode }
 func (w *wrapNoClose) Process(ctx context.Context, e *eventlogger.Event) (*eventlogger.Event, error) {
 	return w.in.Process(ctx, e)
 }
-func (w *wrapNoClose) Reopen() error              { return w.in.Reopen() }
+func (w *wrapNoClose) Reopen() error              { return w.in.reopenFrom(true) }
 func (w *wrapNoClose) Type() eventlogger.NodeType { return w.in.Type() }
 func (w *wrapNoClose) Unwrap() eventlogger.Node   { return w.in }
 
@@ -295,7 +296,22 @@ func (n *RecNode) asRegistered() eventlogger.Node {
 	return n.reg
 }
 
-func (n *RecNode) Reopen() error {
+// Reopen is what the library calls on the registered object. When the node was registered through a wrapper, a
+// call that arrives here directly has bypassed the wrapper (whose Reopen is the registered node's Reopen): it is
+// not counted as a reopen of the registered node, and cannot report its failure.
+func (n *RecNode) Reopen() error { return n.reopenFrom(false) }
+
+func (n *RecNode) reopenFrom(viaWrapper bool) error {
+	n.cmu.Lock()
+	_, wrapped := n.reg.(*wrapNoClose)
+	if !wrapped {
+		_, wrapped = n.reg.(*wrapClose)
+	}
+	n.cmu.Unlock()
+	if wrapped && !viaWrapper {
+		atomic.AddInt64(&n.bypassed, 1)
+		return nil
+	}
 	atomic.AddInt64(&n.reopens, 1)
 	if n.OnReopen != nil {
 		n.OnReopen(n)
@@ -368,7 +384,12 @@ func (m *Model) PipesOf(t string) []*mPipe {
 	return out
 }
 
-func validPolicy(p string) bool { return p == "" || p == "AllowOverwrite" || p == "DenyOverwrite" }
+func validPolicy(p string) bool {
+	return p == "" || p == "AllowOverwrite" || p == "DenyOverwrite" || p == "DenyThenAllow" || p == "AllowThenDeny"
+}
+
+// denies: the policy in force after the call (of several options in one call the last one counts)
+func denies(p string) bool { return p == "DenyOverwrite" || p == "AllowThenDeny" }
 
 // RegisterNode returns whether the call must succeed.
 func (m *Model) RegisterNode(id string, obj *RecNode, policy string) bool {
@@ -378,7 +399,7 @@ func (m *Model) RegisterNode(id string, obj *RecNode, policy string) bool {
 	if n, ok := m.nodes[id]; ok && n.deny {
 		return false
 	}
-	m.nodes[id] = &mNode{obj: obj, deny: policy == "DenyOverwrite"}
+	m.nodes[id] = &mNode{obj: obj, deny: denies(policy)}
 	return true
 }
 
@@ -419,7 +440,7 @@ func (m *Model) RegisterPipeline(t, pid string, ids []string, policy string) boo
 		return false
 	}
 	m.version++
-	p := &mPipe{typ: t, pid: pid, version: m.version, ids: append([]string(nil), ids...), deny: policy == "DenyOverwrite"}
+	p := &mPipe{typ: t, pid: pid, version: m.version, ids: append([]string(nil), ids...), deny: denies(policy)}
 	for _, id := range ids {
 		p.objs = append(p.objs, m.nodes[id].obj)
 	}
@@ -637,6 +658,11 @@ func policyOpts(node bool, policy string) []eventlogger.Option {
 	case "ExplicitEmpty":
 		// the empty string given explicitly is not one of the two policies
 		return []eventlogger.Option{with("")}
+	case "DenyThenAllow":
+		// several policy options in one call: the last one counts
+		return []eventlogger.Option{with(eventlogger.DenyOverwrite), with(eventlogger.AllowOverwrite)}
+	case "AllowThenDeny":
+		return []eventlogger.Option{with(eventlogger.AllowOverwrite), with(eventlogger.DenyOverwrite)}
 	case "LowerDeny":
 		// a spelling that is not one of the two values is not one of the two values
 		return []eventlogger.Option{with("denyoverwrite")}
